@@ -75,7 +75,7 @@ def run(ctx):
             if accent_verb_class(c['src']) and any(k['id'] == 'accent-multichar-arg' for k in ctx.known):
                 ctx.known_hits.setdefault('accent-multichar-arg', {'what': next(k['line'] for k in ctx.known if k['id'] == 'accent-multichar-arg'), 'count': 0})['count'] += 1
                 continue
-            ctx.violation(fails[0], src=c['src'], opts=c['opts'], all=fails[:3])
+            ctx.violation(fails[0], src=c['src'], opts=c['opts'], all=fails[:3], case=semrun.pack(c))
         if len(ctx.samples) < 3:
             ctx.sample({'src': c['src'][:300], 'out': (r.get('txt') or '')[:200]})
     corr.t2t(ctx, cases, results, proj=('outcome', 'toks', 'text'), limit=ctx.scale(900, 20000))
@@ -89,7 +89,14 @@ def judge_witness(w):
     c = {'src': w['src'], 'opts': w.get('opts') or {}, 'multi': False, 'words': []}
     return judge(c, t2t.run_case(c), None)
 
+def rejudge(c):
+    return judge(c, semrun.run_one(c), None)
+
 def replay(data):
+    if data['violation'].get('case'):
+        f = rejudge(semrun.unpack(data['violation']['case']))
+        print('\n'.join(f) if f else 'ok')
+        return not f
     f = judge_witness(data['violation'])
     print('\n'.join(f) if f else 'ok (token-level oracle; the word-level oracle needs the AST)')
     return not f
